@@ -23,7 +23,7 @@ type c08Cfg struct {
 	Deps    [][2]int // i depends on j
 	EpicDep int      // 0 none, 1 E1->E2 (E1 depends on E2), 2 E2->E1
 	E2Gone  bool     // E2 pruned (only when it has no live child)
-	Variant int      // history variant: 0 plain, 1 every task re-assigned from another epic, 2 link/unlink noise, 3 reopened, 4 claim churn
+	Variant int      // history variant: 0 plain, 1 every task re-assigned from another epic, 2 link/unlink noise, 3 reopened, 4 claim churn, 5 create events in reverse log order
 }
 
 var c08Full = []c08Opt{
@@ -134,7 +134,7 @@ func (c c08Cfg) String() string {
 		sb.WriteString(" E2=pruned")
 	}
 	if c.Variant != 0 {
-		sb.WriteString(" history=" + []string{"plain", "reassigned", "link-unlink-noise", "reopened", "claim-churn"}[c.Variant])
+		sb.WriteString(" history=" + []string{"plain", "reassigned", "link-unlink-noise", "reopened", "claim-churn", "creates-in-reverse-log-order"}[c.Variant])
 	}
 	return sb.String()
 }
@@ -192,7 +192,7 @@ func (c c08Cfg) build() (core.Store, []string, [2]string) {
 			noise = append(noise, SynEdge{e[0], e[1]})
 		}
 	}
-	return synStoreNoise(items, edges, noise), ids, e
+	return synStoreOpts(items, edges, noise, c.Variant == 5), ids, e
 }
 
 // ---- reference predicates: literal transcription of the property sentence ---------------------
@@ -253,7 +253,7 @@ func runC08(env *core.Env) {
 		if len(cfgs[i].Tasks) > 2 && !env.Thorough() {
 			continue
 		}
-		for v := 1; v <= 4; v++ {
+		for v := 1; v <= 5; v++ {
 			c := cfgs[i]
 			c.Variant = v
 			cfgs = append(cfgs, c)
@@ -377,6 +377,7 @@ func runC08(env *core.Env) {
 			samples.add(map[string]interface{}{"config": c.String(), "ready": keys(wantReady)})
 		}
 	})
+	three := c08ThreeEpics(env, classes)
 	// cross-validation of the synthesised logs: build a subset through the real CLI and compare flags
 	xv := c08CrossValidate(env, cfgs)
 	validated := conf.run(env)
@@ -384,8 +385,8 @@ func runC08(env *core.Env) {
 		"states": evals, "transitions": claims + evals, "traces_validated_against_impl": validated,
 		"samples": samples.list, "exhaustive": int(done) == len(cfgs), "configurations": len(cfgs), "configurations_checked": done,
 		"claim_calls": claims, "configs_with_mixed_ready_sets": nontrivial, "distinct_flag_classes": classes.len(), "flag_classes": classes.snapshot(),
-		"cli_built_cross_validated": xv, "unconfirmed_candidates": unconfirmed.Load(),
-		"history_variants": "each <=2-task configuration (thorough: every configuration) also reached via re-assignment from another epic, link+unlink noise on every non-edge, done->todo reopen, claim/unclaim churn",
+		"cli_built_cross_validated": xv, "three_epic_configurations": three, "unconfirmed_candidates": unconfirmed.Load(),
+		"history_variants": "each <=2-task configuration (thorough: every configuration) also reached via re-assignment from another epic, link+unlink noise on every non-edge, done->todo reopen, claim/unclaim churn, create events in reverse log order",
 		"bound":            "all stores with <=2 tasks (9 state/claim/pruned options x 3 memberships each, all acyclic dependency relations, 3 epic-dependency options, E2 optionally pruned) and 3 tasks (quick: 4 options x {root,E1}; thorough: 9 options x 3 memberships)",
 	}, []string{
 		"stores are synthesised event logs in ergo's own format (includes the crash-only todo+claimed state); a subset is rebuilt through the real CLI and must observe identically (cli_built_cross_validated)",
@@ -505,6 +506,84 @@ func c08CrossValidate(env *core.Env, cfgs []c08Cfg) int {
 			env.HarnessError("synthesised log and CLI-built store disagree for %s:\n--- synthesised\n%s\n--- CLI\n%s", c, want, got)
 		}
 		atomic.AddInt64(&n, 1)
+	})
+	return int(n)
+}
+
+// c08ThreeEpics: three epics with every acyclic dependency relation among them, each epic holding no task or one
+// task (todo / doing / done): the epic clause of readiness looks at the epics a task's epic DIRECTLY depends on.
+func c08ThreeEpics(env *core.Env, classes *counter) int {
+	type cfg struct {
+		deps  [][2]int
+		tasks [3]int // per epic: 0 none, 1 todo, 2 doing, 3 done
+	}
+	var cfgs []cfg
+	for _, d := range dags(3) {
+		for x := 0; x < 64; x++ {
+			cfgs = append(cfgs, cfg{d, [3]int{x % 4, (x / 4) % 4, x / 16}})
+		}
+	}
+	var n int64
+	env.Parallel(len(cfgs), func(w *core.Worker, i int) {
+		if !env.TimeLeft() {
+			return
+		}
+		c := cfgs[i]
+		ep := []string{core.IDFor(3100), core.IDFor(3101), core.IDFor(3102)}
+		items := []SynItem{{ID: ep[0], Epic: true, Title: "A"}, {ID: ep[1], Epic: true, Title: "B"}, {ID: ep[2], Epic: true, Title: "C"}}
+		tid := [3]string{}
+		for k := 0; k < 3; k++ {
+			if c.tasks[k] == 0 {
+				continue
+			}
+			tid[k] = core.IDFor(int64(3200 + k))
+			it := SynItem{ID: tid[k], Title: fmt.Sprintf("t%d", k), In: ep[k], State: []string{"", "todo", "doing", "done"}[c.tasks[k]]}
+			if c.tasks[k] == 2 {
+				it.Claim = "c"
+			}
+			items = append(items, it)
+		}
+		var edges []SynEdge
+		for _, d := range c.deps {
+			edges = append(edges, SynEdge{ep[d[0]], ep[d[1]]})
+		}
+		st := synStore(items, edges)
+		st.Materialize(w.Proj)
+		obs := core.ObserveW(w, w.Proj)
+		atomic.AddInt64(&n, 1)
+		desc := fmt.Sprintf("epics A,B,C tasks(0 none,1 todo,2 doing,3 done)=%v epic deps(from depends on to)=%v", c.tasks, c.deps)
+		if obs.Fail != "" {
+			report(env, "C08 kind=store-unreadable", desc+": "+obs.Fail, mkTrace(st, desc, nil, Assert{Kind: "read_fails", Step: 0}))
+			return
+		}
+		complete := func(k int) bool { return c.tasks[k] == 0 || c.tasks[k] == 3 }
+		for k := 0; k < 3; k++ {
+			if c.tasks[k] == 0 {
+				continue
+			}
+			ready := c.tasks[k] == 1
+			for _, d := range c.deps {
+				if d[0] == k && !complete(d[1]) {
+					ready = false
+				}
+			}
+			blocked := c.tasks[k] == 1 && !ready
+			it, _ := obs.Item(tid[k])
+			classes.inc(fmt.Sprintf("three-epics ready=%v blocked=%v", ready, blocked))
+			if it.Ready != ready || it.Blocked != blocked {
+				report(env, fmt.Sprintf("C08 kind=epic-chain-flags want-ready=%v got-ready=%v want-blocked=%v got-blocked=%v", ready, it.Ready, blocked, it.Blocked),
+					fmt.Sprintf("%s: task in epic %d shows ready=%v blocked=%v; only the epics its epic directly depends on count", desc, k, it.Ready, it.Blocked),
+					mkTrace(st, desc, nil, Assert{Kind: "obs_contains", Step: 0, Text: fmt.Sprintf("title=\"t%d\" ready=%v blocked=%v", k, it.Ready, it.Blocked)}))
+			}
+			// claim --epic hands out the task iff it is ready
+			st.Materialize(w.Proj)
+			res := w.Run(core.R(w.Proj, "--json", "claim", "--agent", "z", "--epic", ep[k]))
+			got := strings.Contains(string(res.Out), tid[k])
+			if res.Exit != 0 || got != ready {
+				report(env, fmt.Sprintf("C08 kind=epic-chain-claim want=%v got=%v", ready, got), desc+": claim --epic -> "+res.String(),
+					mkTrace(st, desc, []core.Req{core.R("", "--json", "claim", "--agent", "z", "--epic", ep[k])}, Assert{Kind: "exit_zero", Step: 1}))
+			}
+		}
 	})
 	return int(n)
 }
